@@ -10,7 +10,10 @@
 //	if recv.P != nil { t = recv.P.Value() }    t: local variable or v.F; P a field nodes.NodeOutput[int|float64|bool]
 //	                                           of the receiver's struct whose kind equals the kind of t
 //	x = max(x, N)                              x an int variable, N an int literal
-//	if w { return CALL, nil }                  w a bool variable; only directly before the final return
+//	x := nodes.TryGetOutputValue(recv.P, LIT)  = `x := LIT; if recv.P != nil { x = recv.P.Value() }` (the helper's body in
+//	x := max(nodes.TryGetOutputValue(..), N)     nodes/node_output.go is checked to be exactly that), optionally clamped
+//	if w { return CALL, nil }                  w a bool variable or nodes.TryGetOutputValue(recv.P, true|false); only
+//	                                           directly before the final return
 //	return CALL, nil                           CALL: F(x, ...) or v.M(x, ...) with local variables as arguments
 package main
 
@@ -42,6 +45,7 @@ type c18nExtract struct {
 	structTy map[string]string            // struct variable -> type name
 	fieldTy  map[string]map[string]string // struct type -> field -> kind ("" when not int/float/bool)
 	stmts    []string
+	usedTry  bool // nodes.TryGetOutputValue occurs: its body must be checked
 }
 
 func c18nKindOfType(e ast.Expr) string {
@@ -228,6 +232,87 @@ func (x *c18nExtract) retCall(s ast.Stmt) (string, error) {
 	return x.call(rs.Results[0])
 }
 
+// nodes.TryGetOutputValue(recv.P, LIT) -> (port id, LIT)
+func (x *c18nExtract) tryGet(e ast.Expr) (int, ast.Expr, bool) {
+	ce, ok := e.(*ast.CallExpr)
+	if !ok || c18Sel(ce.Fun) != "nodes.TryGetOutputValue" || len(ce.Args) != 2 {
+		return 0, nil, false
+	}
+	port := c18Sel(ce.Args[0])
+	if !strings.HasPrefix(port, x.recv+".") {
+		return 0, nil, false
+	}
+	pname := strings.TrimPrefix(port, x.recv+".")
+	for i, p := range x.ports {
+		if p.name == pname && p.kind != "" {
+			return i, ce.Args[1], true
+		}
+	}
+	return 0, nil, false
+}
+
+// `name := LIT; if recv.P != nil { name = recv.P.Value() }` for a TryGetOutputValue read
+func (x *c18nExtract) declTry(name string, pid int, lit ast.Expr) (int, error) {
+	l, k, err := c18nLit(lit, x.ports[pid].kind)
+	if err != nil {
+		return 0, fmt.Errorf("fallback of port %s: %v", x.ports[pid].name, err)
+	}
+	if k != x.ports[pid].kind {
+		return 0, fmt.Errorf("fallback of port %s: %s literal for a %s port", x.ports[pid].name, k, x.ports[pid].kind)
+	}
+	id := x.declare(name, k)
+	x.stmts = append(x.stmts, fmt.Sprintf(".decl %d (.lit %s)", id, l), fmt.Sprintf(".port %d %d", id, pid))
+	x.usedTry = true
+	return id, nil
+}
+
+// nodes/node_output.go: func TryGetOutputValue(output, fallback) { if output == nil { return fallback }; return output.Value() }
+func c18nCheckTryGet(repo string) error {
+	fset := token.NewFileSet()
+	f, err := parser.ParseFile(fset, filepath.Join(repo, "nodes", "node_output.go"), nil, 0)
+	if err != nil {
+		return err
+	}
+	for _, d := range f.Decls {
+		fd, ok := d.(*ast.FuncDecl)
+		if !ok || fd.Recv != nil || fd.Name.Name != "TryGetOutputValue" {
+			continue
+		}
+		bad := fmt.Errorf("nodes/node_output.go: TryGetOutputValue is not `if output == nil { return fallback }; return output.Value()`")
+		var ps []string
+		for _, fl := range fd.Type.Params.List {
+			for _, n := range fl.Names {
+				ps = append(ps, n.Name)
+			}
+		}
+		if len(ps) != 2 || fd.Body == nil || len(fd.Body.List) != 2 {
+			return bad
+		}
+		is, ok := fd.Body.List[0].(*ast.IfStmt)
+		if !ok || is.Init != nil || is.Else != nil || len(is.Body.List) != 1 {
+			return bad
+		}
+		be, ok := is.Cond.(*ast.BinaryExpr)
+		if !ok || be.Op != token.EQL || c18Sel(be.X) != ps[0] || c18Sel(be.Y) != "nil" {
+			return bad
+		}
+		r1, ok := is.Body.List[0].(*ast.ReturnStmt)
+		if !ok || len(r1.Results) != 1 || c18Sel(r1.Results[0]) != ps[1] {
+			return bad
+		}
+		r2, ok := fd.Body.List[1].(*ast.ReturnStmt)
+		if !ok || len(r2.Results) != 1 {
+			return bad
+		}
+		ce, ok := r2.Results[0].(*ast.CallExpr)
+		if !ok || len(ce.Args) != 0 || c18Sel(ce.Fun) != ps[0]+".Value" {
+			return bad
+		}
+		return nil
+	}
+	return fmt.Errorf("nodes/node_output.go: func TryGetOutputValue not found")
+}
+
 func (x *c18nExtract) stmt(s ast.Stmt) error {
 	switch v := s.(type) {
 	case *ast.AssignStmt:
@@ -280,6 +365,27 @@ func (x *c18nExtract) stmt(s ast.Stmt) error {
 				x.structs[lhs.Name] = names
 				x.structTy[lhs.Name] = ty
 				return nil
+			}
+			if pid, lit, ok := x.tryGet(v.Rhs[0]); ok {
+				_, err := x.declTry(lhs.Name, pid, lit)
+				return err
+			}
+			if ce, ok := v.Rhs[0].(*ast.CallExpr); ok && c18Sel(ce.Fun) == "max" && len(ce.Args) == 2 {
+				if pid, lit, ok := x.tryGet(ce.Args[0]); ok {
+					n, err := c18Nat(ce.Args[1])
+					if err != nil {
+						return fmt.Errorf("%s := max(...): %v", lhs.Name, err)
+					}
+					id, err := x.declTry(lhs.Name, pid, lit)
+					if err != nil {
+						return err
+					}
+					if x.vars[id].kind != "int" {
+						return fmt.Errorf("%s := max(...): not an int", lhs.Name)
+					}
+					x.stmts = append(x.stmts, fmt.Sprintf(".clampMin %d %d", id, n))
+					return nil
+				}
 			}
 			l, k, err := c18nLit(v.Rhs[0], "")
 			if err != nil {
@@ -359,7 +465,7 @@ func (x *c18nExtract) stmt(s ast.Stmt) error {
 	return fmt.Errorf("unsupported statement %T", s)
 }
 
-func c18nNode(dir, file, dataType, leanName string) (string, error) {
+func c18nNode(repo, dir, file, dataType, leanName string) (string, error) {
 	fset := token.NewFileSet()
 	f, err := parser.ParseFile(fset, filepath.Join(dir, file), nil, 0)
 	if err != nil {
@@ -397,7 +503,9 @@ func c18nNode(dir, file, dataType, leanName string) (string, error) {
 	var condStmt *ast.IfStmt
 	if len(body) > 0 {
 		if is, ok := body[len(body)-1].(*ast.IfStmt); ok {
-			if _, isIdent := is.Cond.(*ast.Ident); isIdent {
+			_, isIdent := is.Cond.(*ast.Ident)
+			_, _, isTry := x.tryGet(is.Cond)
+			if isIdent || isTry {
 				condStmt = is
 				body = body[:len(body)-1]
 			}
@@ -414,8 +522,17 @@ func c18nNode(dir, file, dataType, leanName string) (string, error) {
 		return "", fmt.Errorf("%s: %v", where(last), err)
 	}
 	if condStmt != nil {
-		id := condStmt.Cond.(*ast.Ident)
-		k, ok := x.varID[id.Name]
+		var k int
+		var ok bool
+		if pid, lit, isTry := x.tryGet(condStmt.Cond); isTry {
+			k, err = x.declTry("(condition)", pid, lit)
+			if err != nil {
+				return "", fmt.Errorf("%s: %v", where(condStmt), err)
+			}
+			ok = true
+		} else {
+			k, ok = x.varID[condStmt.Cond.(*ast.Ident).Name]
+		}
 		if !ok || x.vars[k].kind != "bool" || condStmt.Init != nil || condStmt.Else != nil || len(condStmt.Body.List) != 1 {
 			return "", fmt.Errorf("%s: unsupported conditional return", where(condStmt))
 		}
@@ -427,6 +544,11 @@ func c18nNode(dir, file, dataType, leanName string) (string, error) {
 		ret = fmt.Sprintf(".ite %d\n      %s\n      %s", condVar, thenCall, elseCall)
 	} else {
 		ret = ".call " + elseCall
+	}
+	if x.usedTry {
+		if err := c18nCheckTryGet(repo); err != nil {
+			return "", err
+		}
 	}
 	var vs, ps []string
 	for i, v := range x.vars {
@@ -455,7 +577,7 @@ func c18Nodes(repo, out string, args []string) error {
 		{"cylinder.go", "CylinderNodeData", "cylinderNode"},
 		{"cube.go", "CubeNodeData", "cubeNode"},
 	} {
-		s, err := c18nNode(dir, n[0], n[1], n[2])
+		s, err := c18nNode(repo, dir, n[0], n[1], n[2])
 		if err != nil {
 			return err
 		}
